@@ -67,6 +67,20 @@ impl Default for Limits {
     }
 }
 
+/// resident set size of this process in GiB (0 if it cannot be read)
+pub fn rss_gib() -> f64 {
+    std::fs::read_to_string("/proc/self/statm")
+        .ok()
+        .and_then(|s| s.split_whitespace().nth(1).and_then(|p| p.parse::<f64>().ok()))
+        .map(|pages| pages * 4096.0 / (1u64 << 30) as f64)
+        .unwrap_or(0.0)
+}
+
+/// the explorers stop (reporting a capped, non-exhaustive run) before they can exhaust the machine
+pub fn max_rss_gib() -> f64 {
+    std::env::var("VERIF_MAX_RSS_GIB").ok().and_then(|s| s.parse().ok()).unwrap_or(20.0)
+}
+
 pub struct Outcome {
     pub states: u64,
     pub transitions: u64,
@@ -302,6 +316,11 @@ pub fn explore<M: Model>(m: &M, rep: &Report, lim: &Limits, label: &str) -> Outc
         }
     }
 
+    // give memory freed by earlier explorations of this process back to the OS, so that the
+    // resident-set cap below judges this exploration only
+    unsafe {
+        libc::malloc_trim(0);
+    }
     let mut depth = 0usize;
     let mut max_depth = 0usize;
     while !frontier.is_empty() {
@@ -312,6 +331,12 @@ pub fn explore<M: Model>(m: &M, rep: &Report, lim: &Limits, label: &str) -> Outc
         }
         if rep.saturated() {
             exhausted = false;
+            break;
+        }
+        let rss = rss_gib();
+        if rss > max_rss_gib() {
+            exhausted = false;
+            rep.note(format!("{}: memory cap hit (resident set {:.1} GiB > {:.0} GiB) with {} states; complete below depth {}", label, rss, max_rss_gib(), nodes.len(), depth));
             break;
         }
         if t0.elapsed().as_secs_f64() > lim.max_wall_s || nodes.len() > lim.max_states {
